@@ -152,7 +152,7 @@ def gen_content(ch, cfg):
     """Draw a description of the image content."""
     c = {}
     c["seed"] = ch.draw("img_seed", 1 << 20)
-    c["kind"] = ch.pick("img_kind", ("noise", "noise", "gradient", "constant", "noise"))
+    c["kind"] = ch.pick("img_kind", ("noise", "noise", "gradient", "constant", "noise", "sources"))
     c["offset_pow"] = ch.pick("offset", (None, 0, 3, 7, 10, 13, -3))     # offset = +-2**pow
     c["offset_neg"] = bool(ch.draw("offset_neg", 2))
     c["sigma_pow"] = ch.pick("sigma", (0, -4, 5))
@@ -174,6 +174,15 @@ def make_image(cfg, content, shift=0.0, scale=1.0):
     else:
         q = np.round(rs.normal(0.0, 1.0, size=(rows, cols)) * 256.0) / 256.0
         base = q * sigma
+        if content["kind"] == "sources":
+            # a few bright compact sources on top of the noise (outliers for the sigma clipping), kept on the dyadic grid
+            rr, cc = np.mgrid[0:rows, 0:cols]
+            blobs = np.zeros((rows, cols))
+            for _ in range(1 + rs.randint(0, 5)):
+                r0, c0 = rs.randint(0, rows), rs.randint(0, cols)
+                amp = float(rs.choice((8.0, 32.0, 128.0, -16.0)))
+                blobs += amp * np.exp(-0.5 * ((rr - r0) ** 2 + (cc - c0) ** 2) / 1.5 ** 2)
+            base = base + np.round(blobs * 256.0) / 256.0 * sigma
         if content["kind"] == "gradient":
             rr = np.arange(rows)[:, None]
             cc = np.arange(cols)[None, :]
